@@ -152,7 +152,8 @@ impl XCompoundSpec {
         }
         let mut ret = binding.clone();
         for (arg, param) in args.iter().zip(self.fields.iter()) {
-            let t = param.type_.resolve_bind(&ret, Some(tail));
+            // (resolved with the incoming binding only: what the earlier fields said about a generic is combined by mix)
+            let t = param.type_.resolve_bind(binding, Some(tail));
             ret = ret.mix(&t.bind_in_assignment(arg)?)?;
         }
         Some(ret)
